@@ -566,6 +566,11 @@ impl Run {
                                 continue;
                             }
                             for (bi, b) in plan.b.iter().enumerate() {
+                                if bi & 15 == 0 && start.elapsed().as_secs_f64() > deadline {
+                                    // wall-clock cap inside one row as well (slow code under test)
+                                    capped = true;
+                                    break;
+                                }
                                 let mut regs = [a, *b, dummy];
                                 let mut ctx = Ctx::new(ti, [&za, &zb[bi], &zdummy], 0, debug);
                                 for &oi in &ops2 {
@@ -594,7 +599,7 @@ impl Run {
                                     }
                                 }
                             }
-                            if viols.len() >= 50_000 {
+                            if viols.len() >= 50_000 || capped {
                                 capped = true;
                                 break;
                             }
